@@ -5,6 +5,6 @@ From PV Require Import Base.V Base.PySeq Base.Rx Expect.Model Run.Model.
 Definition stop_id (s : stop) : Z :=
   match s with StopEof => 0 | StopTimeout => 1 | StopCallback => 2 | StopTypeError => 3 | StopTransportError => 4 | OutOfFuel => 9 end.
 (** (events, transport events): output, strings sent, pending text, events left, how it stopped *)
-Definition run_case (c : list (entry rx * resp) * list ev) : V :=
-  let r := run rx rx_search 40 (fst c) (snd c) in
+Definition run_case (c : option nat * list (entry rx * resp) * list ev) : V :=
+  let r := run rx rx_search 40 (fst (fst c)) (snd (fst c)) (snd c) in
   VL [vtext (r_out r); vlist vtext (r_sent r); vtext (pend (r_state r)); vnat (length (r_rest r)); VI (stop_id (r_stop r))].
